@@ -42,6 +42,7 @@ import M4riProofs.GenTiePleFinal
 import M4riProofs.GenTieGlue
 import M4riProofs.GenTieClose2
 import M4riProofs.GenTieClose4
+import M4riProofs.GenTieTop
 namespace M4ri.Props.C03
 open M4ri M4ri.BMat
 
@@ -194,3 +195,11 @@ theorem pluq_end_to_end (L1 L2 L3 : Nat) {A : BMat} (hA : A.WF) :
 #check @M4ri.GenTieClose4.firstZeroRow_bridge
 
 end M4ri.Props.C03
+
+/-! ### END TO END ON THE C TEXT (GenTieTop.lean): the generated `_mzd_pluq` over the whole generated `_mzd_ple` closed at any depth returns a valid PLUQ
+    factorisation of `A` with `r = rank A` (profile form), P and Q on their index ranges; `pluqTop_eq_pluqM`: the model at full depth is `PR.pluqTop` -/
+#check @M4ri.GenTieTop.c_pluq
+#check @M4ri.GenTieTop.cPluq_agree
+#check @M4ri.GenTieTop.pluqFromPle_congr
+#check @M4ri.GenTieTop.pleTop_eq_pleM
+#check @M4ri.GenTieTop.pluqTop_eq_pluqM
